@@ -62,7 +62,7 @@ def run(pid, tier, replay_path, facts, rule, model, assumptions, module='OalTrac
             e = v.event()
             sig = {'clause': v.clause, 'home': e['home'], 'err': e['err'].split(':')[0][:60]}
             rep.failure(sig, {'item': r['items'][v.step - 1], 'text': e['text'], 'generated': e['gen'], 'err': e['err'],
-                              'clause': v.clause, 'real': e['real'], 'facts': e.get('facts'),
+                              'clause': v.clause, 'real': e['real'], 'facts': e.get('facts'), 'casediff': e.get('casediff'),
                               'spec_expected': repr(v.expected)[:3000]})
     rc = rep.finish()
     if replay_path:
